@@ -47,7 +47,7 @@ pub enum FOp {
     FromViewMut,
     /// `yield_delta`: how many items the iterator really holds relative to the expected count
     Insert { axis: Axis, push: bool, at: u8, yield_delta: i8, report: Report },
-    Remove { axis: Axis, pop: bool, at: u8, front: u8, back: u8 },
+    Remove { axis: Axis, pop: bool, at: u8, front: u8, back: u8, #[serde(default)] skip: u8 },
     Clear,
     /// form 0..11: the eleven sort variants (0..6 by row, 6..11 by column)
     Sort { form: u8, line: u8 },
@@ -143,6 +143,28 @@ impl<E> IntoIterator for FInto<E> {
     fn into_iter(self) -> FIter<E> {
         tick();
         self.0
+    }
+}
+
+/// object-safe view of a drain
+trait DrainLike<E> {
+    fn next_(&mut self) -> Option<E>;
+    fn next_back_(&mut self) -> Option<E>;
+    fn nth_(&mut self, n: usize) -> Option<E>;
+    fn nth_back_(&mut self, n: usize) -> Option<E>;
+}
+impl<E, D: Iterator<Item = E> + DoubleEndedIterator> DrainLike<E> for D {
+    fn next_(&mut self) -> Option<E> {
+        self.next()
+    }
+    fn next_back_(&mut self) -> Option<E> {
+        self.next_back()
+    }
+    fn nth_(&mut self, n: usize) -> Option<E> {
+        self.nth(n)
+    }
+    fn nth_back_(&mut self, n: usize) -> Option<E> {
+        self.nth_back(n)
     }
 }
 
@@ -265,23 +287,39 @@ fn run_op<E: Elem + Clone + Default + Ord + Hash>(t: &mut TooDee<E>, k: &FaultCa
             elem::disarm();
             res
         }
-        FOp::Remove { axis, pop, at, front, back } => {
+        FOp::Remove { axis, pop, at, front, back, skip } => {
             let dim = if *axis == Axis::Row { r } else { c };
             if dim == 0 {
                 return Ok(());
             }
             let at = (*at as usize).min(dim - 1);
             let (front, back) = (*front, *back);
+            // skipping consumption: nth(k-1) first / nth_back(k-1) last (the skipped elements are
+            // dropped by the drain itself -- caller code again when their Drop is instrumented)
+            let (sf, sb) = (*skip & 15, *skip >> 4);
             elem::arm(fuse);
             let res = catch(move || {
-                fn drive<E, D: Iterator<Item = E> + DoubleEndedIterator>(d: &mut D, f: u8, b: u8, held: &mut Vec<E>) {
+                let drive = |d: &mut dyn DrainLike<E>, f: u8, b: u8, held: &mut Vec<E>| {
+                    if sf > 0 {
+                        if let Some(e) = d.nth_(sf as usize - 1) {
+                            held.push(e);
+                        }
+                    }
+                    drive0(d, f, b, held);
+                    if sb > 0 {
+                        if let Some(e) = d.nth_back_(sb as usize - 1) {
+                            held.push(e);
+                        }
+                    }
+                };
+                fn drive0<E>(d: &mut dyn DrainLike<E>, f: u8, b: u8, held: &mut Vec<E>) {
                     for _ in 0..f {
-                        if let Some(e) = d.next() {
+                        if let Some(e) = d.next_() {
                             held.push(e);
                         }
                     }
                     for _ in 0..b {
-                        if let Some(e) = d.next_back() {
+                        if let Some(e) = d.next_back_() {
                             held.push(e);
                         }
                     }
@@ -598,10 +636,12 @@ fn all_ops(cols: u8, rows: u8) -> Vec<FOp> {
             let n = if axis == Axis::Row { cols } else { rows };
             for at in 0..dim {
                 for (f, b) in [(0, 0), (1, 0), (0, 1), (1, 1), (n, 0)] {
-                    v.push(FOp::Remove { axis, pop: false, at, front: f, back: b });
+                    v.push(FOp::Remove { axis, pop: false, at, front: f, back: b, skip: 0 });
+                    v.push(FOp::Remove { axis, pop: false, at, front: f, back: b, skip: 0x12 });
                 }
             }
-            v.push(FOp::Remove { axis, pop: true, at: 0, front: 1, back: 0 });
+            v.push(FOp::Remove { axis, pop: true, at: 0, front: 1, back: 0, skip: 0 });
+            v.push(FOp::Remove { axis, pop: true, at: 0, front: 0, back: 1, skip: 0x21 });
         }
     }
     for form in 0..11u8 {
@@ -649,7 +689,7 @@ impl Prop for C11 {
             1 => Just(FOp::CloneFromSlice), 1 => Just(FOp::CloneFromToodee), 1 => Just(FOp::ViewCloneFromSlice), 1 => Just(FOp::ViewCloneFromToodee),
             1 => Just(FOp::FromView), 1 => Just(FOp::FromViewMut), 1 => Just(FOp::Clear), 1 => Just(FOp::EqSelf), 1 => Just(FOp::HashSelf),
             10 => (axis(), prop::bool::weighted(0.25), 0u8..14, prop_oneof![6 => Just(0i8), 1 => Just(-1i8), 1 => Just(1i8), 1 => Just(3i8)], report).prop_map(|(axis, push, at, yield_delta, report)| FOp::Insert { axis, push, at, yield_delta, report }),
-            8 => (axis(), prop::bool::weighted(0.25), 0u8..14, 0u8..6, 0u8..6).prop_map(|(axis, pop, at, front, back)| FOp::Remove { axis, pop, at, front, back }),
+            8 => (axis(), prop::bool::weighted(0.25), 0u8..14, 0u8..6, 0u8..6, prop_oneof![2 => Just(0u8), 1 => (0u8..4, 0u8..4).prop_map(|(a, b)| a | (b << 4))]).prop_map(|(axis, pop, at, front, back, skip)| FOp::Remove { axis, pop, at, front, back, skip }),
             8 => (0u8..11, 0u8..14).prop_map(|(form, line)| FOp::Sort { form, line }),
         ];
         (proptest::sample::select(vec![ElemKind::Tr, ElemKind::Tr, ElemKind::Bx, ElemKind::Zs, ElemKind::Nd]), 0u8..=12, 0u8..=12, any::<bool>(), op, prop_oneof![1 => Just(Fuse::None), 9 => any::<u16>().prop_map(Fuse::Frac)])
